@@ -52,9 +52,11 @@ class Module:
             self.tree = ast.parse(source, filename=path)
         from .normalize import normalize
         self.normal_form = normalize(name, self.tree)
+        SHARED = (ast.expr_context, ast.boolop, ast.operator, ast.unaryop, ast.cmpop)   # CPython shares one instance of each per interpreter
         for parent in ast.walk(self.tree):
             for child in ast.iter_child_nodes(parent):
-                child._parent = parent
+                if not isinstance(child, SHARED):
+                    child._parent = parent
         self.tree._parent = None
         self.funcs = {}           # qual -> FuncInfo
         self.classes = {}         # name -> ClassDef
@@ -102,6 +104,20 @@ class Repo:
         if not os.path.isdir(self.pkg):
             raise AnalysisError(f"package directory missing: {self.pkg}")
         h = hashlib.sha256()
+        import gc
+        gc_was = gc.isenabled()
+        gc.disable()          # building ~35 syntax trees with parent links: generational collections of that heap dominate the time otherwise
+        try:
+            self._load(overrides, h)
+        finally:
+            if gc_was:
+                gc.enable()
+        unknown = set(overrides) - set(self.modules)
+        if unknown:
+            raise AnalysisError(f"override for unknown module(s): {sorted(unknown)}")
+        self.digest = h.hexdigest()[:16]
+
+    def _load(self, overrides, h):
         for dp, dn, fn in sorted(os.walk(self.pkg)):
             dn.sort()
             if "__pycache__" in dp:
@@ -121,10 +137,6 @@ class Repo:
                     self.modules[name] = Module(name, path, src)
                 except SyntaxError as e:
                     raise AnalysisError(f"cannot parse {path}: {e}")
-        unknown = set(overrides) - set(self.modules)
-        if unknown:
-            raise AnalysisError(f"override for unknown module(s): {sorted(unknown)}")
-        self.digest = h.hexdigest()[:16]
 
     # ---- lookup
     def module(self, name):
